@@ -84,6 +84,7 @@ pub fn gen_instance(r: &mut Rng, p: &InstParams) -> Inst {
                         let pen = match style {
                             0 => r.below(4) as u32,      // ties / out of order
                             1 => (j * j) as u32,         // quadratic
+                            3 => (chosen.len() - 1 - j) as u32, // listed worst first (the list order is not the preference order)
                             _ => j as u32,
                         };
                         (*c, pen)
@@ -855,9 +856,10 @@ pub fn gen_tree(r: &mut Rng, max_nodes: usize, with_panic: bool) -> Tree {
         }
     }
     fix(&mut nodes, 0, r);
-    if with_panic && nodes.len() > 1 {
-        // a failing node at a random position (inner nodes lose their subtree)
-        let i = 1 + r.usize(nodes.len() - 1);
+    if with_panic {
+        // a failing node at a random position — the root included (one time in six) —; inner nodes
+        // lose their subtree
+        let i = if nodes.len() == 1 || r.chance(1, 6) { 0 } else { 1 + r.usize(nodes.len() - 1) };
         nodes[i].1 = Kind::Panic;
     }
     Tree { nodes }
@@ -972,4 +974,31 @@ pub fn small_scope_matrix(n: usize, mut idx: u64) -> Matrix {
         skipx: vec![false; n],
         skipy: vec![false; n],
     }
+}
+
+/// Seven to nine courses that all take place with two or three people, rooms for all but one of them and a
+/// last room that is too small for anybody's course: the room conflict sits at the LOWEST rank, with more
+/// than `MAX_NTOK` larger courses above it — the whole candidate range of the room branching is in play
+/// (a range that depended on anything but the node, e.g. on the worker count, would change the tree).
+pub fn gen_wide_room_range(r: &mut Rng) -> Inst {
+    let nc = 7 + r.usize(3);
+    let courses: Vec<CourseDump> = (0..nc)
+        .map(|i| CourseDump { index: i, dbid: 100 + i, name: format!("c{}", i), num_min: 1, num_max: 3, instructors: vec![],
+            room_factor: 1.0, room_offset: 0.0, fixed_course: false, hidden_participant_names: vec![] })
+        .collect();
+    let mut parts: Vec<ParticipantDump> = vec![];
+    for c in 0..nc {
+        // the first two courses have fans with a cheap alternative, the others do not
+        let want = 2 + r.usize(2);
+        for _ in 0..want {
+            let mut ch = vec![(c, 0u32)];
+            let other = if c < 2 { (c + 1 + r.usize(nc - 1)) % nc } else { (c + 1) % nc };
+            ch.push((other, if c < 2 { 1 } else { 3 + r.below(3) as u32 }));
+            let i = parts.len();
+            parts.push(ParticipantDump { index: i, dbid: 1000 + i, name: format!("p{}", i), choices: ch });
+        }
+    }
+    let mut rooms = vec![3usize; nc - 1];
+    rooms.push(1);
+    Inst { courses, parts, rooms: Some(rooms) }
 }
